@@ -32,3 +32,25 @@ Proof.
   apply Hr in H. cbn [r_score] in H. rewrite <- H. unfold F.
   exact (fill_max_optimal sc which (posf_of which) Hoe He HN a0 r1 b0 bt).
 Qed.
+
+From GA.Proofs Require Import GotohProofs TracebackProofs.
+
+(* ... and the reported score is attained: it is 0 or the score of some valid local alignment of the two sequences *)
+Theorem align_pair_score_attained sc s1 s2 r :
+  sc_open sc <= sc_extend sc -> sc_extend sc < 0 -> NEG <= sc_open sc ->
+  align_pair false sc s1 s2 = Some r ->
+  r_score r = 0 \/
+  exists r1 r2 st1 st2 en1 en2, valid_alignment s1 s2 r1 r2 st1 st2 en1 en2 /\
+    score_cols (sub_of sc (pick_matrix s1 s2)) (sc_open sc) (sc_extend sc) r1 r2 0 = r_score r.
+Proof.
+  intros Hoe He HN H. rewrite (align_pair_score_optimal sc s1 s2 r Hoe He HN H).
+  assert (G : (forall b, In b s1 -> isgap b = false) /\ (forall b, In b s2 -> isgap b = false)).
+  { unfold align_pair, align_pair_with in H. set (which := pick_matrix s1 s2) in *.
+    destruct s1 as [|a0 r1]; [discriminate|]. destruct s2 as [|b0 bt]; [discriminate|].
+    destruct (all_some (map (char_pos which) (a0 :: r1))) as [p1|] eqn:E1; [|discriminate].
+    destruct (all_some (map (char_pos which) (b0 :: bt))) as [p2|] eqn:E2; [|discriminate].
+    clear H. apply all_some_map in E1 as [_ G1]. apply all_some_map in E2 as [_ G2].
+    split; [apply (char_pos_nogap which _ G1) | apply (char_pos_nogap which _ G2)]. }
+  destruct G as [G1 G2].
+  exact (gotoh_attained (sub_of sc (pick_matrix s1 s2)) (sc_open sc) (sc_extend sc) Hoe He s1 s2 G1 G2).
+Qed.
